@@ -103,6 +103,10 @@ def h10_plugin(S):
 
     older = S.pick("older_messages", 2)
     d = S.real("d", 0, Fraction(2, 1000))
+    # what is enqueued: the job; the job whose actor enqueues a follow-up job itself; or a job with a known name on a queue
+    # its actor does not serve (nobody runs it: enqueue just returns)
+    variant = ["plain", "actor-enqueues-a-follow-up", "known-name-on-a-foreign-queue"][S.pick("variant", 3)] if older == 0 else "plain"
+    S.tag("variant", variant)
     ran = []
     out = {}
 
@@ -115,6 +119,9 @@ def h10_plugin(S):
         async def job(i: int):
             ran.append(i)
             await asyncio.sleep(d)
+            if variant == "actor-enqueues-a-follow-up" and i == 7:
+                await Job("other", args={"i": 70}, id_="follow-up", _connection=w.conn).enqueue()
+                ran.append("back-in-the-first-actor")
 
         @r.actor(converter=BasicConverter, name="other", queue="default")
         async def other(i: int):
@@ -125,12 +132,29 @@ def h10_plugin(S):
             await Job("other", args={"i": k}, id_=f"old{k}", _connection=w.conn).enqueue()
         RunWorkerOnEnqueueModifier(w.broker, lambda: Worker(routers=[r], handle_signals=[], messages_limit=1,
                                                              _connection=w.conn, graceful_shutdown_time=1.0))
-        await Job("job", args={"i": 7}, id_="new", _connection=w.conn).enqueue()
+        if variant == "known-name-on-a-foreign-queue":
+            await w.broker.queue_declare("elsewhere")
+        try:
+            await asyncio.wait_for(Job("job", args={"i": 7}, id_="new", queue="elsewhere" if variant == "known-name-on-a-foreign-queue" else "default",
+                                       _connection=w.conn).enqueue(), timeout=10)
+            out["returned"] = True
+        except asyncio.TimeoutError:
+            out["returned"] = False
         out["ran_at_return"] = list(ran)
-        out["places"] = mem_places(w.broker)
+        out["places"] = {**mem_places(w.broker), **(mem_places(w.broker, "elsewhere") if variant == "known-name-on-a-foreign-queue" else {})}
 
     run_async(main)
     S.cover("plugin-ran")
+    S.check("enqueue-returns", out["returned"], info=f"{variant}: enqueue() still blocked after 10 s; executed so far: {out['ran_at_return']}")
+    if not out["returned"]:
+        return
+    if variant == "actor-enqueues-a-follow-up":
+        S.check("each-enqueue-processes-exactly-its-job", out["ran_at_return"] == [7, ("other", 70), "back-in-the-first-actor"], info=str(out["ran_at_return"]))
+        return
+    if variant == "known-name-on-a-foreign-queue":
+        S.check("job-on-a-queue-nobody-serves-is-not-run", out["ran_at_return"] == [] and place_names(out["places"], "new") == ["waiting"],
+                info=f"ran={out['ran_at_return']} places={place_names(out['places'], 'new')}")
+        return
     S.check("exactly-one-execution-per-enqueue", len(out["ran_at_return"]) == 1, info=str(out["ran_at_return"]))
     if older == 0:
         S.check("that-job-was-processed", out["ran_at_return"] == [7], info=str(out["ran_at_return"]))
